@@ -356,7 +356,8 @@ def run_kamax(case: Dict[str, Any]) -> CaseInfo:
                     raise Violation("request_taken_on_not_answered", f"request {k} (stream {sid}) "
                                     f"reached the application but its response is "
                                     f"{st_ and (bytes(st_.data), st_.end_stream, st_.rst)}; "
-                                    f"limit {r}, goaway {acct.goaway}", **tag)
+                                    f"limit {r}, goaway {acct.goaway}", **tag,
+                                    which="over_limit" if k >= r else "within_limit")
     return CaseInfo(abs(n - r) <= 1, [f"proto={case['proto']}", f"r={r}", f"n={n}"], evals=2)
 
 
